@@ -206,6 +206,17 @@ class Rig:
                 elif o.dummy_hand is not None:
                     c.violate('C11:dummy-early', f'{self.where()}: observer {s} knows dummy before the opening lead', self.rp())
 
+    def _after_damage(self):
+        """The table engine itself was changed by a refused / wrongly accepted play: let the other oracles (trick bookkeeping,
+        playable sets, replicas) describe the damage in their own terms, then abandon the play-out (the reference has not moved)."""
+        saved = self.playable
+        self.playable = True
+        try:
+            self.check()
+        finally:
+            self.playable = saved
+        raise Broken()
+
     def _cmp_avail(self, r, exp: set, hand: set, tag: str, who: str):
         c = self.c
         c.inc('playable_sets')
@@ -263,11 +274,17 @@ class Rig:
                 if r[0] != 'exc':
                     c.violate(f'C05:accepted:{kind}:{"table" if seat_o is None else "observer"}',
                               f'{self.where()}: {name} accepted the {kind} play of card {card} by {s} (on turn: {active})', self.rp({'fault': [kind, s, card, name]}))
-                    raise Broken()
+                    if seat_o is None:
+                        self._after_damage()
+                    self.dead_obs.add(seat_o)          # this replica has left the common history; the others go on
+                    break
                 if snap(o) != before:
                     c.violate(f'C05:refused-but-changed:{kind}:{"table" if seat_o is None else "observer"}',
                               f'{self.where()}: {name} refused the {kind} play of card {card} by {s} but its state changed', self.rp({'fault': [kind, s, card, name]}))
-                    raise Broken()
+                    if seat_o is None:
+                        self._after_damage()
+                    # a damaged observer stays in the play-out: what the damage does to the rest of the board is for C11 / C06 to say
+                    before = snap(o)
         # dummy's card before dummy is exposed (observers other than dummy)
         if not self.dummy_open and self.obs and active == dm:
             pass      # cannot happen: the opening leader is never dummy
@@ -303,7 +320,11 @@ def run_playout(bid, declarer, deal, departures: Dict[int, int], c: Counter, fau
                 fault_span: int = 99, chooser=None) -> Optional[Rig]:
     """Default line = lowest legal card; departures[k] = index (into the sorted remaining hand, default card removed) of the card
     played instead at position k.  Oracles after every play; faults injected at positions fault_from..fault_from+fault_span."""
-    rig = Rig(bid, declarer, deal, c, observers=observers and OPTS['observers'], playable=OPTS['playable'], do_faults=OPTS['do_faults'])
+    df = OPTS['do_faults']
+    if df == 'light':
+        # faults only on the default line and on every 4th departure play-out
+        df = (not departures) or (sum(departures) + sum(departures.values())) % 4 == 0
+    rig = Rig(bid, declarer, deal, c, observers=observers and OPTS['observers'], playable=OPTS['playable'], do_faults=bool(df))
     total = sum(len(v) for v in deal.values())
     try:
         rig.check()
